@@ -408,6 +408,14 @@ def generate(unit, template_path, repo=None, canary=False):
             fi.rewrites['R4'] = n
         # ---- signature edits + splices (collected as insertions at byte offsets of `body`)
         inserts = []   # (byte, text, origin)
+        lowered = []
+        if fi.is_fn and 'nolower' not in flags and not any('nolower' in _parse_kv(sd.arg)[1] for sd in blk['subs'] if sd.kind == 'opt'):
+            lay0 = _fn_layout(body)
+            if lay0['body_open'] is not None:
+                body, lowered = rw.r15_lower_for(body, lay0['body_open'])
+                count('R15', len(lowered))
+                if lowered:
+                    fi.rewrites['R15'] = len(lowered)
         if fi.is_fn:
             lay = _fn_layout(body)
             if ghost:
@@ -440,15 +448,29 @@ def generate(unit, template_path, repo=None, canary=False):
                     spec_text = spec_text.rstrip() + ('\n' if spec_text.strip() else '') + '    ensures ' + flag + '() ==> false,'
             if spec_text.strip():
                 inserts.append((lay['body_open'], '\n' + spec_text.rstrip() + '\n', ('contract', fi.name, 'spec')))
-            if loop_dirs:
+            if loop_dirs or lowered:
                 loops = _loops(body, lay['body_open'])
-                for k, (sd, lkv) in loop_dirs.items():
+                for k in sorted(set(loop_dirs) | set(lowered)):
                     if k < 1 or k > len(loops):
                         raise AnchorError(f'{fi.name}: loop {k} not found (function has {len(loops)} loops)')
                     kw_b, open_b, in_b = loops[k - 1]
-                    ltxt = '\n'.join(l for l, _ in sd.body)
-                    for sec, label, lprops, no in _section_clauses(sd.body):
-                        fi.labels.append((sec, k, label, lprops or props, no))
+                    ltxt = ''
+                    lkv = {}
+                    if k in loop_dirs:
+                        sd, lkv = loop_dirs[k]
+                        ltxt = '\n'.join(l for l, _ in sd.body)
+                        for sec, label, lprops, no in _section_clauses(sd.body):
+                            fi.labels.append((sec, k, label, lprops or props, no))
+                    if k in lowered:
+                        # auto (ghost-only) bound + measure of the lowered loop; user clauses follow
+                        user = re.sub(r'^(\s*)invariant\b', r'\1', ltxt, count=1, flags=re.M) if re.search(r'^\s*invariant\b', ltxt, re.M) else ltxt
+                        dec = '' if re.search(r'^\s*decreases\b', ltxt, re.M) else f'\n        decreases __v{k}.len() - __i{k},'
+                        if re.search(r'^\s*decreases\b', user, re.M):
+                            m = re.search(r'^\s*decreases\b', user, re.M)
+                            user_inv, user_dec = user[:m.start()], user[m.start():]
+                        else:
+                            user_inv, user_dec = user, ''
+                        ltxt = f'        invariant __i{k} <= __v{k}.len(),\n' + user_inv.rstrip() + dec + ('\n' + user_dec if user_dec else '')
                     if 'iter' in lkv:
                         if in_b is None:
                             raise AnchorError(f'{fi.name}: loop {k} is not a for loop')
@@ -485,15 +507,20 @@ def generate(unit, template_path, repo=None, canary=False):
                             j -= 1
                         pos = st[j].end
                     else:
-                        j = match_close(st, i + 1)
-                        depth = 0
+                        j = match_close(st, i + 1) + 1
                         while j < len(st):
                             t = st[j]
-                            if t.kind == 'p' and t.text in ('(', '[', '{'):
+                            if t.kind == 'p' and t.text == '{':
+                                break          # `if let .. = CALL {` / `match CALL {`: hint goes to the start of the block
+                            if t.kind == 'p' and t.text in ('(', '['):
                                 j = match_close(st, j)
                             elif t.kind == 'p' and t.text == ';':
                                 break
+                            elif t.kind == 'p' and t.text in (')', ']', '}'):
+                                raise AnchorError(f'{fi.name}: proof anchor after={callee}#{ordn}: call is nested in an expression')
                             j += 1
+                        if j >= len(st):
+                            raise AnchorError(f'{fi.name}: proof anchor after={callee}#{ordn}: no statement end')
                         pos = st[j].end
                     inserts.append((pos, '\n' + ptxt.rstrip() + '\n', ('contract', fi.name, 'proof')))
                 elif 'at' in pkv and pkv['at'][0].startswith('afterloop'):
